@@ -622,10 +622,10 @@ def paramExp (x : Ext) (cfg : Cfg) (env : Env) (pe : PE) : Except Err (Str × En
       | .unknown => .ok ([], none, true, true, vr.set)
       | .indexed => do
         let el ← sliceElems env pe vr.list vr.idx positional
-        pure (join el.toList, el, true, false, vr.set)
+        -- like Bash, a list without elements counts as unset
+        pure (join el.toList, el, true, false, !el.toList.isEmpty)
       | .assoc =>
         let el := sortedSl (vr.map.map (·.2))
-        -- like Bash, a list without elements counts as unset (this arm only)
         .ok (join el.toList, el, true, false, !el.toList.isEmpty)
       | .string => .ok ([], none, false, true, vr.set)
     else .ok ([], none, false, true, vr.set)
